@@ -26,6 +26,7 @@ func (k *kase) describe() map[string]any {
 
 func (k *kase) replay(oi, ov obs) map[string]any {
 	m := k.describe()
+	m["contracts_deployed_at_0x1_and_0x2"] = []string{contractK, contractOuter}
 	m["script"] = k.mainScript()
 	m["force_script"] = k.forceScript()
 	m["interpreter"] = oi
@@ -41,6 +42,7 @@ func corpusCases() []*kase {
 		return &kase{Prelude: prelude, Expr: expr, S0: s0, S: s, V0: v, T: t, Origin: "corpus"}
 	}
 	five := &Val{K: "num", P: "Int", N: bigInt(5)}
+	kf := &Val{K: "comp", C: 5, ID: 1}
 	some := func(v *Val) *Val { return &Val{K: "some", R: v} }
 	refS0 := func(a Auth, b *Ty) *Val { return &Val{K: "ref", Au: a, T: b, R: r0} }
 	return []*kase{
@@ -64,6 +66,30 @@ func corpusCases() []*kase {
 			dict(prim("String"), capOf(ref(conj(0, 1), comp(0)))), dict(prim("String"), capOf(ref(conj(0, 1), comp(0)))),
 			&Val{K: "dict", T: prim("String"), T2: capOf(ref(conj(0, 1), comp(0))), Keys: []*Val{{K: "string", S: "a"}}, Elems: []*Val{{K: "cap", T: ref(conj(0, 1), comp(0)), Addr: 1, CapID: 0}}},
 			dict(prim("String"), capOf(ref(conj(0, 2), comp(0))))),
+		// same qualified name, different location: K.F (0x1) against K2.F (0x2), directly and through
+		// containers, optionals, references, intersections; resources and enums; nested contract members
+		mk(nil, "K.F(1)", comp(5), prim("AnyStruct"), kf, comp(6)),
+		mk(nil, "K.F(1)", comp(5), comp(5), kf, comp(6)),
+		mk(nil, "K.F(1)", comp(5), prim("AnyStruct"), kf, comp(5)),
+		mk(nil, "K.F(1)", comp(5), prim("AnyStruct"), kf, opt(comp(6))),
+		mk(nil, "K.F(1)", comp(5), prim("AnyStruct"), kf, inter(6)),
+		mk(nil, "K.F(1)", comp(5), inter(5), kf, comp(6)),
+		mk(nil, "K.F(1)", comp(5), opt(comp(5)), kf, comp(6)),
+		mk(nil, "([K.F(1)] as [K.F])", varr(comp(5)), prim("AnyStruct"), &Val{K: "array", CS: -1, T: comp(5), Elems: []*Val{kf}}, varr(comp(6))),
+		mk(nil, "({\"a\": K.F(1)} as {String: K.F})", dict(prim("String"), comp(5)), prim("AnyStruct"),
+			&Val{K: "dict", T: prim("String"), T2: comp(5), Keys: []*Val{{K: "string", S: "a"}}, Elems: []*Val{kf}}, dict(prim("String"), comp(6))),
+		mk([]string{"let r1 = K.F(1)"}, "(&r1 as &K.F)", ref(unauth(), comp(5)), ref(unauth(), comp(5)), &Val{K: "ref", Au: unauth(), T: comp(5), R: kf}, ref(unauth(), comp(6))),
+		mk([]string{"let r1 = K.F(1)"}, "(&r1 as &{K.FI})", ref(unauth(), inter(5)), ref(unauth(), inter(5)), &Val{K: "ref", Au: unauth(), T: inter(5), R: kf}, ref(unauth(), comp(6))),
+		mk(nil, "K2.F(1)", comp(6), prim("AnyStruct"), &Val{K: "comp", C: 6, ID: 1}, comp(5)),
+		mk(nil, "K.En.a", comp(9), prim("AnyStruct"), &Val{K: "comp", C: 9, ID: 0}, comp(10)),
+		mk(nil, "K.En.a", comp(9), prim("HashableStruct"), &Val{K: "comp", C: 9, ID: 0}, comp(10)),
+		mk(nil, "Outer.Inner(1)", comp(11), prim("AnyStruct"), &Val{K: "comp", C: 11, ID: 1}, comp(12)),
+		mk(nil, "([Outer.Inner(1)] as [Outer.Inner])", varr(comp(11)), prim("AnyStruct"), &Val{K: "array", CS: -1, T: comp(11), Elems: []*Val{{K: "comp", C: 11, ID: 1}}}, varr(comp(12))),
+		{Prelude: []string{"let q1 <- K.mkG(1)"}, Expr: "q1", S0: comp(7), S: prim("AnyResource"), V0: &Val{K: "comp", C: 7, ID: 1}, T: comp(8), Resource: true, Origin: "corpus"},
+		{Prelude: []string{"let q1 <- K.mkG(1)"}, Expr: "q1", S0: comp(7), S: comp(7), V0: &Val{K: "comp", C: 7, ID: 1}, T: comp(8), Resource: true, Origin: "corpus"},
+		{Prelude: []string{"let q1 <- K.mkG(1)", "let q2: @{K.GI} <- q1"}, Expr: "q2", S0: inter(7), S: inter(7), V0: &Val{K: "comp", C: 7, ID: 1}, T: comp(8), Resource: true, Origin: "corpus"},
+		{Prelude: []string{"let q1 <- K.mkG(1)", "let q2: @[K.G] <- [<- q1]"}, Expr: "q2", S0: varr(comp(7)), S: prim("AnyResource"), V0: &Val{K: "array", CS: -1, T: comp(7), Elems: []*Val{{K: "comp", C: 7, ID: 1}}}, T: varr(comp(8)), Resource: true, Origin: "corpus"},
+		{Prelude: []string{"let q1 <- K.mkG(1)", "let q2: @K.G? <- q1"}, Expr: "q2", S0: opt(comp(7)), S: opt(comp(7)), V0: &Val{K: "some", R: &Val{K: "comp", C: 7, ID: 1}}, T: comp(8), Resource: true, Origin: "corpus"},
 		// optionals: unwrapping, the AnyStruct exception, boxing
 		mk(nil, "((5 as Int) as Int??)", opt(opt(prim("Int"))), prim("AnyStruct"), some(some(five)), prim("Int")),
 		mk(nil, "((5 as Int) as Int??)", opt(opt(prim("Int"))), prim("AnyStruct"), some(some(five)), opt(prim("Int"))),
@@ -108,7 +134,7 @@ func run(sum *lib.Summary) {
 	}
 	sum.Rule = "generated value expressions (numbers of all integer kinds and fixed point, strings, characters, bools, addresses, paths, " +
 		"type values, nil / nested optionals, variable- and constant-sized arrays and dictionaries with static element types, struct and " +
-		"resource composites conforming to interfaces, ephemeral references with authorizations (incl. references to resources, arrays), " +
+		"resource composites conforming to interfaces (script-local ones, and the members struct / resource / interfaces / enum of two contracts deployed with identical code at two addresses, i.e. distinct types with identical qualified names), ephemeral references with authorizations (incl. references to resources, arrays), " +
 		"capabilities) bound to a variable of a declared type (exact, AnyStruct/AnyResource, optional, interface / numeric supertype), " +
 		"x a target type (3/4 derived from the value's run-time type: itself, optionals of it, super/sibling types, changed element types, " +
 		"changed authorizations, intersections; 1/4 arbitrary). Each case runs two scripts in both engines. " +
@@ -128,7 +154,7 @@ func run(sum *lib.Summary) {
 		wg.Add(1)
 		go func(w int) {
 			defer wg.Done()
-			h := lib.NewHost()
+			h := newHost()
 			for i := w; i < len(cases); i += workers {
 				ois[i] = runCase(h, cases[i], false)
 				ovs[i] = runCase(h, cases[i], true)
@@ -179,7 +205,10 @@ func run(sum *lib.Summary) {
 		}
 
 		// ---- engines agree on every observation
-		if oi != ov {
+		// (the exported text of a dictionary lists the entries in an engine-dependent order: not compared)
+		ci2, cv2 := oi, ov
+		ci2.XStr, ci2.CastStr, cv2.XStr, cv2.CastStr = "", "", "", ""
+		if ci2 != cv2 {
 			key := "engine-diff"
 			if x.K == "nil" && k.T.isPrim("AnyResource") && oi.CastID == "" && ov.CastID != "" &&
 				oi.Inst == ov.Inst && oi.Sub == ov.Sub && oi.TypeID == ov.TypeID {
